@@ -11,7 +11,7 @@ import (
 // C13 — order, Reverse, Limit, One, AssignIndex (DESIGN 4/C13).
 
 func init() {
-	drivers["C13"] = &driver{cases: tierN(200, 3000), run: runC13}
+	drivers["C13"] = &driver{cases: tierN(200, 6000), run: runC13}
 }
 
 // build constructs a fresh search for a query chain (all And).
